@@ -65,8 +65,8 @@ def truth(seg, name, t0, t1):
     return lo, up, q, z
 
 
-def check_segment(name, scale, cfg, acc, only=None, budget=None, rot=0):
-    seg = AB.make(name, scale, rot=rot)
+def check_segment(name, scale, cfg, acc, only=None, budget=None, rot=0, shift=0j):
+    seg = AB.make(name, scale, rot=rot, shift=shift)
     kind = type(seg).__name__[0]
     cfgname = 'scipy' if cfg else 'fallback'
     vals = {}
@@ -85,10 +85,10 @@ def check_segment(name, scale, cfg, acc, only=None, budget=None, rot=0):
         for t0, t1 in itertools.combinations_with_replacement(TS, 2):
             if only and (t0, t1) not in only:
                 continue
-            case = {'what': 'segment', 'shape': name, 'scale': scale, 'config': cfg, 't0': t0, 't1': t1, 'rot': rot}
+            case = {'what': 'segment', 'shape': name, 'scale': scale, 'config': cfg, 't0': t0, 't1': t1, 'rot': rot, 'shift': core.jz(shift)}
             counter['n'] = 0
             try:
-                fresh = AB.make(name, scale, rot=rot)       # fresh object: no cache from earlier intervals
+                fresh = AB.make(name, scale, rot=rot, shift=shift)       # fresh object: no cache from earlier intervals
                 r = outcome(lambda: fresh.length(t0, t1))
             except Budget:
                 acc.caps_hit['fallback point-evaluation budget %d' % budget] += 1
@@ -116,7 +116,7 @@ def check_segment(name, scale, cfg, acc, only=None, budget=None, rot=0):
                     acc.violation('empty_interval_nonzero', sig, case, observed=v, expected=0)
                 continue
             rel = 5e-3 if z else 1e-6
-            floor = 1e-13 * scale
+            floor = 1e-13 * scale + 64 * 2.0 ** -52 * abs(shift)
             if not (lo * (1 - rel) - floor <= v <= up * (1 + rel) + floor):
                 acc.violation('outside_bracket', sig, case, observed=v, expected=[lo, up], detail='rel tol %g' % rel)
             elif q is not None and not abs(v - q) <= rel * max(q, v) + floor:
@@ -132,7 +132,7 @@ def check_segment(name, scale, cfg, acc, only=None, budget=None, rot=0):
                              cls='additivity/%s' % cfgname)
                     if not abs(whole - parts) <= rel * max(whole, parts) + 1e-13 * scale:
                         acc.violation('not_additive', {'kind': kind, 'config': cfgname, 'branch': branch},
-                                      {'what': 'segment', 'shape': name, 'scale': scale, 'config': cfg, 't0': t0, 't1': t1, 'tm': tm, 'rot': rot},
+                                      {'what': 'segment', 'shape': name, 'scale': scale, 'config': cfg, 't0': t0, 't1': t1, 'tm': tm, 'rot': rot, 'shift': core.jz(shift)},
                                       observed=[whole, parts])
     finally:
         if budget:
@@ -175,6 +175,31 @@ def check_paths(cfg, acc):
                 acc.violation('path_sublength', {'config': cfgname}, dict(case, T=[T0, T1]), observed=r, expected=e)
 
 
+def check_long_paths(cfg, acc):
+    """long paths (dashed / hatched line sets, long chains): Path.length == sum of the segments' lengths"""
+    cfgname = 'scipy' if cfg else 'fallback'
+    for n in (5, 23, 24, 25, 40, 100):
+        for kind in ('dashes', 'polyline', 'hatch', 'mixed'):
+            segs = []
+            for i in range(n):
+                if kind == 'dashes':
+                    segs.append(Line(complex(3 * i, 0.5 * i), complex(3 * i + 2, 0.5 * i + 0.25)))
+                elif kind == 'polyline':
+                    segs.append(Line(complex(i, (i * i) % 7), complex(i + 1, ((i + 1) * (i + 1)) % 7)))
+                elif kind == 'hatch':
+                    segs.append(Line(complex(i, 0), complex(i + 5, 10)) if i % 2 == 0 else Line(complex(i + 5, 10), complex(i, 0.5)))
+                else:
+                    segs.append(Line(complex(i, 0), complex(i + 0.5, 1)) if i % 5 else
+                                QuadraticBezier(complex(i, 0), complex(i + 1, 2), complex(i + 2, 0)))
+            p = Path(*segs)
+            exp = sum(s_.length() for s_ in segs)
+            case = {'what': 'long_path', 'n': n, 'kind': kind, 'config': cfg}
+            acc.case(case, cls='long_path/%s' % cfgname)
+            r = outcome(lambda: p.length())
+            if r[0] != 'ok' or not abs(r[1] - exp) <= 1e-9 * exp:
+                acc.violation('path_length_not_sum', {'config': cfgname, 'long': n >= 24, 'kind': kind}, case, observed=r, expected=exp)
+
+
 def tier_params(tier, seed):
     if tier == 'quick':
         return {'scipy_scales': [1e-3, 1.0, 1e3, 1e6], 'fallback_scales': [1e-3, 2.0 ** -6], 'budget': 3_000_000}
@@ -194,6 +219,10 @@ def shards(tier, seed):
                 for rot in ROTS:
                     out.append({'what': 'segment', 'config': cfg, 'scale': sc, 'shape': n, 'rot': rot})
         out.append({'what': 'paths', 'config': cfg})
+    # curves far from the origin (tests that tolerances are relative to the curve, not to its coordinates)
+    for n in names():
+        if n not in AB.ARCS:
+            out.append({'what': 'segment', 'config': True, 'scale': 1.0, 'shape': n, 'rot': 0, 'shift': [3e5, 2e5]})
     return out
 
 
@@ -205,9 +234,11 @@ def run_shard(desc, tier, seed):
     try:
         if desc['what'] == 'paths':
             check_paths(desc['config'], acc)
+            check_long_paths(desc['config'], acc)
         else:
             check_segment(desc['shape'], desc['scale'], desc['config'], acc,
-                          budget=None if desc['config'] else tp['budget'], rot=desc.get('rot', 0))
+                          budget=None if desc['config'] else tp['budget'], rot=desc.get('rot', 0),
+                          shift=complex(*desc.get('shift', [0, 0])))
     finally:
         sp._quad_available = old
     return acc
@@ -237,13 +268,16 @@ def replay(case):
     old = sp._quad_available
     sp._quad_available = bool(case['config'])
     try:
-        if case['what'] == 'path':
+        if case['what'] == 'long_path':
+            check_long_paths(case['config'], acc)
+            acc.vlist = [v for v in acc.vlist if v['case'] == case]
+        elif case['what'] == 'path':
             check_paths(case['config'], acc)
         elif 'tm' in case:
-            check_segment(case['shape'], case['scale'], case['config'], acc, rot=case.get('rot', 0))
+            check_segment(case['shape'], case['scale'], case['config'], acc, rot=case.get('rot', 0), shift=complex(*case.get('shift', [0, 0])))
             acc.vlist = [v for v in acc.vlist if v['clause'] == 'not_additive']
         else:
-            check_segment(case['shape'], case['scale'], case['config'], acc, only=[(case['t0'], case['t1'])], rot=case.get('rot', 0))
+            check_segment(case['shape'], case['scale'], case['config'], acc, only=[(case['t0'], case['t1'])], rot=case.get('rot', 0), shift=complex(*case.get('shift', [0, 0])))
     finally:
         sp._quad_available = old
     return acc.vlist
